@@ -22,14 +22,14 @@ PROPERTY = "C05"
 RULE = (
     "StandardNormal / DiagonalNormal / ConditionalDiagonalNormal x event shapes {[1],[2],[3],[2,2]} x encoder {identity, linear} x patterns x context rows {1,2,3}: joint quadrature for "
     "<=2 coordinates, additivity on a 3^D grid + per-factor 1-D quadrature beyond; mean() vs first moment and documented shape; lattice push-forward of sample(). "
-    "ConditionalIndependentBernoulli: exact sum over {0,1}^n (n<=4), mean, rand-lattice frequencies. MADEMoG: features {1,2} x mixture sizes {1,2,3} x block types x context rows, quadrature. "
+    "ConditionalIndependentBernoulli: exact sum over {0,1}^n (n<=4), mean, rand-lattice frequencies. MADEMoG: features {1,2} x mixture sizes {1,2,3} x block types x context rows, quadrature + all sampler paths. "
     "BoxUniform, MG1Uniform, LotkaVolterraOscillating: quadrature / factor-wise, samples inside the support. gaussian_kde_log_eval: N in {1,2,5}, D in {1,2}. "
     "One case = one (object, context row) pair; non-trivial = parameters differ from the as-constructed ones or >=2 context rows."
 )
 ASSUMPTIONS = [
     "quadrature: midpoint rule on a sinh-stretched grid, n and n/2 points; a case fails iff |I-1| > max(1e-6, 10*|I_n - I_n/2|) (2-D: 1e-4 floor; discontinuous uniform densities: 5e-2)",
     "sampling clause replaced by its deterministic push-forward form: with the m mid-quantiles of N(0,1) (resp. U(0,1)) injected as noise, the k-th sample must sit at the (k+1/2)/m quantile of the density; torch.randn/rand themselves are trusted",
-    "the MADE mixture's sampler is decided as a push-forward only for one component and one feature (float32 sampler, tolerance 1e-3); with several components (Categorical draw) only shape/finite values are checked (C18)",
+    "the MADE mixture's sampler: every path of component choices x 2 noise values per feature is forced through the torch.multinomial / torch.randn seams in one sample() call; the sampler's own conditional mixtures (weights = the probabilities handed to multinomial, means/scales solved from the two noise values) must reproduce exp(log_prob) at all (2K)^D drawn points to 5e-3 in log density (float32 sampler vs float64 density); one component and one feature additionally as a 32-quantile CDF push-forward",
 ]
 
 M = 32  # lattice size
@@ -335,7 +335,112 @@ def mog_case(cfg, pname, rows, seed, tier):
                     break
         except Exception as e:
             out.append(("sample", "sample raises %s" % type(e).__name__, "MADEMoG cfg=%s: sample(%d): %s: %s" % (cfg, M, type(e).__name__, str(e)[:100])))
+    if not out:
+        out += mog_sampler_paths(d, cfg, pname, seed, ctx, nrows, obj)
     return out, nrows
+
+
+ZL = (-0.8, 0.6)  # the two noise values injected per feature (asymmetric on purpose)
+
+
+def mog_sampler_paths(d, cfg, pname, seed, ctx, nrows, obj64):
+    """Sampler vs density for any number of components and features, exactly: ONE call sample(N) with N = (K*2)^D rows in which
+    the seams force every path of component choices (torch.multinomial answers) x noise values (torch.randn answers). Rows that
+    share a prefix share x_<i, so from them the sampler's own conditional mixture of feature i -- weights (the probabilities the
+    library handed to multinomial), means and scales (two noise values per component) -- is read off; the product of these
+    conditionals at each of the N drawn points must equal exp(log_prob) there."""
+    out = []
+    D, K = cfg["features"], cfg["components"]
+    Z = len(ZL)
+    N = (K * Z) ** D
+    # row n <-> digits (k_1, z_1, ..., k_D, z_D)
+    digs = np.zeros((N, D, 2), dtype=np.int64)
+    for n in range(N):
+        q = n
+        for i in range(D):
+            digs[n, i, 0] = q % K
+            q //= K
+            digs[n, i, 1] = q % Z
+            q //= Z
+    o32 = DC.materialise(d, cfg, pname, seed, dtype=torch.float32)
+    for r in range(nrows):
+        c32 = None if ctx is None else ctx[r : r + 1].float()
+        rec = {"probs": [], "feat_m": 0, "feat_r": 0, "bad": None}
+
+        def fake_multinomial(inp, num_samples, replacement=False, **kw):
+            i = rec["feat_m"]
+            rec["feat_m"] += 1
+            if inp.shape != (N, K) or num_samples != 1 or i >= D:
+                rec["bad"] = "multinomial called with input %s, num_samples %s (call %d)" % (tuple(inp.shape), num_samples, i)
+                return torch.zeros(inp.shape[0], num_samples, dtype=torch.long)
+            rec["probs"].append(inp.detach().double().clone())
+            return torch.tensor(digs[:, i, 0]).reshape(N, 1)
+
+        def fake_randn(*size, **kw):
+            i = rec["feat_r"]
+            rec["feat_r"] += 1
+            n = size[0] if not isinstance(size[0], (tuple, list, torch.Size)) else size[0][0]
+            if n != N or i >= D:
+                rec["bad"] = "randn called with size %s (call %d)" % (size, i)
+                return torch.zeros(*size)
+            return torch.tensor([ZL[j] for j in digs[:, i, 1]], dtype=torch.float32)
+
+        try:
+            with mock.patch.object(torch, "multinomial", fake_multinomial), mock.patch.object(torch, "randn", fake_randn), torch.no_grad():
+                smp = o32.sample(N, context=c32)
+        except Exception as e:
+            out.append(("sample", "sample raises %s" % type(e).__name__, "MADEMoG cfg=%s: sample(%d) with forced component / noise paths: %s: %s" % (cfg, N, type(e).__name__, str(e)[:100])))
+            break
+        if rec["bad"] or rec["feat_m"] != D or rec["feat_r"] != D:
+            # the sampler does not have the documented one-categorical-one-normal-draw-per-feature structure: nothing is decided here
+            out.append(("sample:undecided", "sampler structure not recognised", "MADEMoG cfg=%s: %s; multinomial calls %d, randn calls %d for %d features" % (cfg, rec["bad"], rec["feat_m"], rec["feat_r"], D)))
+            break
+        X = smp.reshape(N, D).double()
+        logp_s = torch.zeros(N, dtype=torch.float64)
+        ok = True
+        for i in range(D):
+            pref = [tuple(digs[n, :i].reshape(-1)) for n in range(N)]
+            groups = {}
+            for n in range(N):
+                groups.setdefault(pref[n], []).append(n)
+            for g, rows_ in groups.items():
+                pi = rec["probs"][i][rows_[0]]
+                pi = pi / pi.sum()
+                mu, sg = [], []
+                for k in range(K):
+                    xa = [float(X[n, i]) for n in rows_ if digs[n, i, 0] == k and digs[n, i, 1] == 0]
+                    xb = [float(X[n, i]) for n in rows_ if digs[n, i, 0] == k and digs[n, i, 1] == 1]
+                    if max(xa) - min(xa) > 1e-5 * (1 + abs(xa[0])) or max(xb) - min(xb) > 1e-5 * (1 + abs(xb[0])):
+                        out.append(("sample", "a feature's draw depends on later choices", "MADEMoG cfg=%s context row %d: feature %d differs between rows that share all choices up to it" % (cfg, r, i)))
+                        ok = False
+                        break
+                    sk = (xb[0] - xa[0]) / (ZL[1] - ZL[0])
+                    mu.append(xa[0] - sk * ZL[0])
+                    sg.append(sk)
+                if not ok:
+                    break
+                if min(sg) <= 0:
+                    out.append(("sample", "non-positive component scale in the sampler", "MADEMoG cfg=%s context row %d: feature %d scales %s" % (cfg, r, i, sg)))
+                    ok = False
+                    break
+                mu_t, sg_t = torch.tensor(mu, dtype=torch.float64), torch.tensor(sg, dtype=torch.float64)
+                xi = X[rows_, i].reshape(-1, 1)
+                comp = torch.log(pi).reshape(1, K) - 0.5 * ((xi - mu_t) / sg_t) ** 2 - torch.log(sg_t) - 0.5 * np.log(2 * np.pi)
+                logp_s[rows_] += torch.logsumexp(comp, dim=1)
+            if not ok:
+                break
+        if not ok:
+            break
+        with torch.no_grad():
+            cc = None if ctx is None else ctx[r : r + 1].expand(N, -1)
+            lp = obj64.log_prob(X, context=cc)
+        err = float((lp - logp_s).abs().max())
+        if not err <= 5e-3:
+            n = int((lp - logp_s).abs().argmax())
+            out.append(("sample", "samples do not follow the density", "MADEMoG cfg=%s context row %d: over all %d forced (component, noise) paths the sampler's own conditional mixtures give log-density %.6g at the drawn point %s but log_prob says %.6g (largest gap %.3g)"
+                        % (cfg, r, N, float(logp_s[n]), [round(float(v), 5) for v in X[n]], float(lp[n]), err)))
+            break
+    return out
 
 
 # ----------------------------------------------------------------------------- torch.distributions-style priors and KDE
